@@ -186,6 +186,31 @@ static int f9(void){ G = dispatch_group_create(); cq = dispatch_get_global_queue
   else if(early) printf("ORACLE VIOL F9 forced schedule: notify n2 registered after dispatch_group_enter ran before the matching leave (registration raced with the wake of notify n1)\n");
   else printf("ORACLE ok f9 schedule forced, n2 waited for the leave (ran2 after leave = %d)\n", atomic_load(&ran2));
   return early; }
+// mode "nest <seed> <rounds>": the implied enter / leave of dispatch_group_async when the block itself submits elsewhere first - into
+// ANOTHER group (dispatch_group_async, dispatch_group_notify), with dispatch_after, or plainly: the leave implied for group A must
+// go to A (A completes: wait returns 0, its notification runs once), and B must not be left on A's behalf (B's wait / notification
+// not before B's own work is done).
+static int nest(int rounds){ dispatch_queue_t cq2=dispatch_queue_create("n.c",DISPATCH_QUEUE_CONCURRENT), sq=dispatch_queue_create("n.s",NULL); int items=0;
+  for(int r=0;r<rounds && !viol;r++){ dispatch_group_t A=dispatch_group_create(), B=dispatch_group_create(); int inner=(int)(rnd()%4); dispatch_queue_t qa = rnd()%2?cq2:sq, qb = rnd()%2?cq2:sq;
+    __block _Atomic int bwork_done=0, bnote=0, bnote_early=0, anote=0, after_ran=0;
+    dispatch_group_async(A,qa,^{
+      if(inner==0) dispatch_group_async(B,qb,^{ usleep((useconds_t)(2000+rnd()%3000)); atomic_store(&bwork_done,1); });
+      else if(inner==1){ dispatch_group_enter(B); dispatch_group_notify(B,qb,^{ if(!atomic_load(&bwork_done)) atomic_fetch_add(&bnote_early,1); atomic_fetch_add(&bnote,1); }); }
+      else if(inner==2) dispatch_after(dispatch_time(DISPATCH_TIME_NOW,2000000),qb,^{ atomic_fetch_add(&after_ran,1); });
+      else dispatch_async(qb,^{ atomic_fetch_add(&after_ran,1); });
+      usleep((useconds_t)(rnd()%300)); });
+    dispatch_group_notify(A,sq,^{ atomic_fetch_add(&anote,1); });
+    if(dispatch_group_wait(A,dispatch_time(DISPATCH_TIME_NOW,3000000000ll))) fail("a group whose only work was one dispatch_group_async block never became empty (3 s): the block's first submission went to 0 another group by group_async, 1 another group's notify, 2 dispatch_after, 3 dispatch_async",inner,r,0);
+    if(inner==0){ long rc=dispatch_group_wait(B,dispatch_time(DISPATCH_TIME_NOW,3000000000ll)); if(rc==0 && !atomic_load(&bwork_done)) fail("dispatch_group_wait on group B returned 0 while the work submitted to B from inside a block of group A was still running: round",r,0,0);
+      if(rc) fail("group B never became empty (3 s): round",r,0,0); }
+    if(inner==1){ usleep(3000); if(atomic_load(&bnote)) fail("a notification of group B ran although B was still entered (it was registered from inside a block of group A): round",r,0,0);
+      atomic_store(&bwork_done,1); dispatch_group_leave(B); for(int w=0; w<3000 && !atomic_load(&bnote); w++) usleep(1000);
+      if(atomic_load(&bnote)!=1 || atomic_load(&bnote_early)) fail("the notification of group B did not run exactly once after B's leave: round/runs/early",r,atomic_load(&bnote),atomic_load(&bnote_early)); }
+    if(inner>=2){ for(int w=0; w<3000 && !atomic_load(&after_ran); w++) usleep(1000); if(atomic_load(&after_ran)!=1) fail("a block submitted from inside a group block did not run exactly once: round/kind/runs",r,inner,atomic_load(&after_ran)); }
+    for(int w=0; w<3000 && !atomic_load(&anote); w++) usleep(1000);
+    if(!viol && atomic_load(&anote)!=1) fail("the notification of group A did not run exactly once after its block had finished: round/kind/runs",r,inner,atomic_load(&anote));
+    dispatch_sync(sq,^{}); dispatch_barrier_sync(cq2,^{}); usleep(200); dispatch_release(A); dispatch_release(B); items++; }
+  return items; }
 int main(int argc, char **argv){
   const char *mode = argc>1 ? argv[1] : "storm"; seed = argc>2 ? strtoull(argv[2],0,0) : 1;
   evs = calloc(MAXEV, sizeof(ev_t)); notes=calloc(MAXN,sizeof(note_t));
@@ -195,6 +220,7 @@ int main(int argc, char **argv){
   else if(!strcmp(mode,"reenter")){ items=reenter(argc>3?atoi(argv[3]):100); }
   else if(!strcmp(mode,"mixed")){ items=mixed(argc>3?atoi(argv[3]):60); }
   else if(!strcmp(mode,"wn")){ items=wn(argc>3?atoi(argv[3]):300); }
+  else if(!strcmp(mode,"nest")){ items=nest(argc>3?atoi(argv[3]):60); }
   else { int nthr = argc>3 ? atoi(argv[3]) : 4; nops = argc>4 ? atoi(argv[4]) : 300; use_ga = argc>5 ? atoi(argv[5]) : 0; items=storm(nthr); }
   printf("OFF state 48\n");
   if (viol) printf("ORACLE VIOL seed=%llu %s\n",(unsigned long long)seed,vmsg);
